@@ -363,6 +363,7 @@ def build(spec, log=False, baulk_log=False):
         return d
 
     kw = {}
+    classes = list(reversed(classes))     # per-class dictionaries are inserted in reverse name order (any order is valid input)
     kw["arrival_distributions"] = {c["name"]: [D(c["arrival"][i], ("arr", i + 1, c["name"])) for i in range(n)] for c in classes}
     kw["service_distributions"] = {c["name"]: [D(c["service"][i], ("srv", i + 1, c["name"])) for i in range(n)] for c in classes}
     kw["number_of_servers"] = [make_servers(nd["servers"]) for nd in nodes]
@@ -403,9 +404,10 @@ def build(spec, log=False, baulk_log=False):
     elif any(v != 0 for v in prios.values()):
         kw["priority_classes"] = prios
     if any(nd.get("ccm") for nd in nodes):
-        ident = {a: {bb: (1.0 if a == bb else 0.0) for bb in names} for a in names}
+        rn = list(reversed(names))      # row / column dicts deliberately not in sorted key order
+        ident = {a: {bb: (1.0 if a == bb else 0.0) for bb in rn} for a in rn}
         kw["class_change_matrices"] = [
-            ({a: {bb: float(nd["ccm"][a][bb]) for bb in names} for a in names} if nd.get("ccm") else copy.deepcopy(ident))
+            ({a: {bb: float(nd["ccm"][a][bb]) for bb in rn} for a in rn} if nd.get("ccm") else copy.deepcopy(ident))
             for nd in nodes]
     if any(nd.get("ps_threshold", 1) != 1 for nd in nodes):
         kw["ps_thresholds"] = [nd.get("ps_threshold", 1) for nd in nodes]
